@@ -153,7 +153,8 @@ def verify_function(repo, contracts, c, registry=None, scope=None, opts=None):
                     E.cur_func = func
                     post = {"postcondition_code_raises_" + r2.cls: z3.BoolVal(False)}
                 for name, g in post.items():
-                    E.oblige("%s.%s.post.%s" % (c.prop, qn, name), g, "post")
+                    for gg in (g if isinstance(g, list) else [g]):     # a clause may be split into several queries
+                        E.oblige("%s.%s.post.%s" % (c.prop, qn, name), gg, "post")
                 for name, fn in c.canaries.items():
                     E.oblige("%s.%s.canary.%s" % (c.prop, qn, name), fn(E, a, res, old), "canary", canary=True)
             else:
